@@ -180,7 +180,7 @@ S(name="c05.g1", universe=G1, version="gfa1", rename_targets=("Z",), tag_ops=Fal
 S(name="c05.g2", universe=universe.G2[:-1], version="gfa2", rename_targets=("z",))
 S(name="c05.g1core", universe=universe.G1_CORE, version="gfa1",
   rename_targets=("Z",), tag_ops=True)
-S(name="c05.g2core", universe=universe.G2_CORE[:-1], version="gfa2",
+S(name="c05.g2core", universe=universe.G2_CORE, version="gfa2",
   rename_targets=("z",), tag_ops=True)
 
 
